@@ -32,7 +32,9 @@
 //
 // Domain decisions (sub-cases the statement does not decide; not generated / not asserted)
 //
-//   - Primers are plain strings of IUPAC letters, 8..25 long, either case (no
+//   - Primers are plain strings of IUPAC letters, 8..25 long (8..63 in primerlen_test.go
+//     and in part of fragsweep_test.go; never 64 = MAX_PAT_LEN: known finding patlen64 of
+//     C10, such a pattern matches nothing), either case (no
 //     '#', '!' or [..]: those belong to C10); budgets 0..3, possibly different for the
 //     two primers in the library checks (one -e for both in the command).
 //   - Templates: lower-case acgt plus some IUPAC ambiguity codes (which match nothing),
@@ -66,6 +68,13 @@
 //     fragmented_circular: every fragment is searched as if it were itself circular).
 //     -L 2..8 so that templates of 1000 x L + 1 .. symbols are fragmented (fragments
 //     of 100 x L); sites planted around the fragment borders.
+//     fragsweep_test.go combines --fragmented with --delta 0/1/5 under a weaker oracle
+//     that does not decide the clipping: every expected amplicon reported at least once
+//     with each flank complete or cut short, every reported record such a copy of an
+//     expected amplicon (--delta 0: no flank, hence the exact set).  Still not combined
+//     with --only-complete-flanking nor -c.  -L 1 is not combined with --fragmented
+//     (fragments of 100 symbols; with primers totalling 99 symbols or more the step
+//     100 x L - overlap of IFragments is <= 0).
 package c11
 
 import (
@@ -92,10 +101,17 @@ func TestMain(m *testing.M) {
 		// annotated templates, nested PCR (nested_test.go)
 		evid.Spec{Name: "TestPropAnnotated", Kind: "rapid", Quick: 8000, Thorough: 250000, QuickShards: 4, ThoroughShards: 16},
 		evid.Spec{Name: "TestPropCLINested", Kind: "rapid", Quick: 160, Thorough: 5000, QuickShards: 4, ThoroughShards: 16},
+		// primers of 8..63 letters (primerlen_test.go)
+		evid.Spec{Name: "TestPropPrimerLength", Kind: "rapid", Quick: 10000, Thorough: 300000, QuickShards: 4, ThoroughShards: 16},
+		evid.Spec{Name: "TestPropCLIPrimerLength", Kind: "rapid", Quick: 160, Thorough: 4000, QuickShards: 4, ThoroughShards: 16},
+		// --fragmented: amplicons of the extreme lengths at every offset around the fragment borders (fragsweep_test.go)
+		evid.Spec{Name: "TestPropCLIFragmentBorder", Kind: "rapid", Quick: 40, Thorough: 640, QuickShards: 4, ThoroughShards: 16},
 	)
 	evid.Commands("obipcr")
 	evid.Note("rule", "A case = one primer pair (8..25 IUPAC letters, either case, different lengths, sometimes the same primer twice or a primer and its reverse complement) + budgets 0..3 + min/max barcode length + extension -1/0/1/5/20 + only-full flag + linear|circular + a batch of 1..6 templates, each assembled from a random background (acgt, low-complexity, sprinkled ambiguity codes) and 0..5 planted priming sites (instances of the forward primer, of the reverse-complemented reverse primer, of the reverse primer, of the reverse-complemented forward primer, with 0..budget+1 spoiled positions) separated by gaps drawn around 0 (touching/overlapping sites) and around min-1/min/max/max+1, lead and tail drawn around the flank length (sites at position 0 and at the very end); circular templates are rotated so that the junction falls into a site or into the barcode, and may be shorter than 64 or than the primers. Oracle: brute-force Hamming/IUPAC sites of the forward primer x sites of the reverse-complemented reverse primer on the template and on its reverse complement (positions modulo n on a circular template), amplicons cut with flanks clipped/dropped, compared as multisets of (sequence, direction, forward_match, reverse_match, forward_error, reverse_error) in both directions with PCRSim (each template alone), PCRSlice (the batch, one recycled C buffer) [check amplicons]; the sites themselves through one recycled ApatSequence [sites]; PCRSim(revcomp(template)) = same multiset with flipped directions [strand]; PCRSim(rotated circular template) = same set [rotation]; the obipcr command on FASTA files with -e/-l/-L/--delta/--only-complete-flanking/-c/--batch-size/--max-cpu [obipcr] and with --fragmented, -L 2..8, templates longer than 1000 x L with site pairs planted around the fragment borders, compared as sets [obipcr_fragmented]. Non-trivial = at least one expected amplicon has a mismatched primer or the reverse direction. Distinct = hash of (options, templates[, rotation offsets | command-line shape]). "+
 		"LONG [long_amplicons, long_strand, long_sites, long_rotation, obipcr_long, obipcr_long_fragmented]: the same oracles on templates of 1..35 kb described compactly (length + seed + alphabet of a splitmix64 background, planted sites, reverse-complement flag, rotation) with primers of 14..25 letters, 2..6 planted sites per template whose consecutive sites are start/end partners, the same kind again (two start sites before an end site, two end sites after a start site: nested amplicons) or unrelated, gaps around 1024 (barcode or cut-out segment of 1023/1024/1025 symbols: the limit of the obiseq slice pool), 1100..5000 and the min/max bounds, or short; min 0/1000/1024/1025/1100, max 0/1024/1500/3000/5000, extension -1/0/1/5/20/100/500; batches of 1..3 long templates with short ones in between, a template and its reverse complement in one batch; circular with the junction inside a site or next to it; the obipcr command on such files, and with --fragmented and -L 1025..1300 on templates of 1..1.5 Mb with units (start site, barcode of ~L/1024/1000..L symbols, end site[, second end site]) planted around the fragment borders on both strands. Non-trivial = at least one expected amplicon is reported with more than 1024 symbols. "+
+		"PRIMER LENGTH [primerlen_amplicons, primerlen_strand, primerlen_sites, primerlen_rotation, obipcr_primerlen]: the generators and oracles of the first paragraph with the two primers measuring 8..63 letters independently (4 times out of 10 one of 31/32/33/62/63 - the matcher keeps one state bit per primer position in a 64-bit word and has one scanning kernel for budget 0 and another for budgets > 0 -, 2 out of 10 in 26..63, else 8..63; alphabets acgt, ac, at, acg + ambiguity codes), budgets 0..3 for each primer (0 half of the time), linear 2/3 and circular 1/3, batches of 1..4 templates; the obipcr command on such files (one -e, 0 half of the time). Non-trivial = at least one amplicon is expected and a primer has more than 25 letters. Classes primerlen:<forward|reverse>:<length class>_budget:<e>_<with|no>_amplicon. "+
+		"FRAGMENT BORDER [obipcr_fragment_border]: obipcr --fragmented without --delta and with --delta 0/1/5, -L 2..6 (..12 thorough), -e 0..2, -l 0/1/L-1/L/random, primers of 8..25 letters (8..63 one time out of 6): a file of W = 3T+7 templates (T = L + both primers = the overlap of two successive fragments) of 1000 x L + 1 .. symbols described compactly (seed of a splitmix64 stream for the backgrounds, template lengths and unit contents + stride/phase/jump of the offset permutation); every template carries one unit (start site + barcode + end site, either strand, 0..budget mismatches) per usable fragment end e_k = k x (100 x L - T) + 100 x L, starting at e_k + off; over the W templates the units of the first fragment end take every off in [-(2T+3), T+3] exactly once with the barcode length of the case (L 4/10, L-1 2/10, the minimum 3/10, random), the units of each further fragment end take every off once too with lengths L/L-1/min/L+1/random and sometimes budget+1 mismatches; some units on the first/last symbols of a template; one case out of 4 uses L = 7..33 (..150 thorough) and only the <= 21 offsets within 3 symbols of an alignment (unit end on fragment end, unit start on next fragment start, unit start on fragment end). Oracle: brute-force model on the whole templates; without --delta and with --delta 0 the set reported = the set expected; with --delta 1/5 every expected amplicon is reported at least once with each flank complete or cut short and every record is such a copy of an expected amplicon. Non-trivial = the first-border units are amplified and measure exactly --max-length or exactly --min-length. "+
 		"ANNOTATED [annotated, obipcr_nested]: templates carrying generic annotations (strings, integers, booleans, a map) and, 8 times out of 10, some or all of forward_primer/forward_match/forward_error/reverse_primer/reverse_match/reverse_error/direction with values of another experiment; half of the in-process cases (7/10 of the command cases) are two-step histories: outer start site + gap + inner region (0..5 sites of the inner pair) + gap + outer end site, either strand, first PCR with the outer pair (extension -1/0/3/10, bounds around the outer barcode lengths), second PCR with the inner pair on the records the first one returned (PCRSim -> PCRSim and PCRSlice; obipcr | obipcr with the bytes of the first output as file or standard input of the second). Oracle at every step: the model's multiset from the step's template sequence and options alone; forward_primer/reverse_primer = the step's primers (case-insensitive); every non-PCR annotation of the template found unchanged on its amplicons (attribution through the inherited annotation c11_tpl for PCRSlice and the command). Non-trivial = at least one amplicon is expected at the last step from a template record that carries an annotation named like a PCR tag.")
 	evid.Main(m, "C11")
 }
